@@ -104,3 +104,193 @@ def impl_stream(text: str, ops, filename=None) -> dict:
     except Exception as e:  # noqa
         err = err_json(e)
     return {"outs": outs, "err": err}
+
+
+# --------------------------------------------------------------------------------------
+# parsing with a recording visitor
+# --------------------------------------------------------------------------------------
+
+from cxxheaderparser.parser import CxxParser  # noqa: E402
+from cxxheaderparser.options import ParserOptions  # noqa: E402
+from cxxheaderparser import parserstate as PS  # noqa: E402
+from cxxheaderparser import simple as S  # noqa: E402
+
+
+def to_json(o):
+    """generic walker: dataclass -> {"_": class name, field: value}; mirrors CxxModel/ToJ.lean"""
+    if dataclasses.is_dataclass(o) and not isinstance(o, type):
+        d = {"_": type(o).__name__}
+        for f in dataclasses.fields(o):
+            d[f.name] = to_json(getattr(o, f.name))
+        return d
+    if isinstance(o, (list, tuple)):
+        return [to_json(x) for x in o]
+    if isinstance(o, dict):
+        return {str(k): to_json(v) for k, v in o.items()}
+    return o
+
+
+class Fault(Exception):
+    def __init__(self, idx):
+        Exception.__init__(self, "fault %d" % idx)
+        self.idx = idx
+
+
+def block_name(state) -> str:
+    if isinstance(state, PS.NamespaceBlockState):
+        return "::".join(state.namespace.names)
+    if isinstance(state, PS.ExternBlockState):
+        return state.linkage
+    seg = state.class_decl.typename.segments[-1]
+    return getattr(seg, "name", None) or "<anon>"
+
+
+def state_kind(state) -> str:
+    if isinstance(state, PS.NamespaceBlockState):
+        return "ns"
+    if isinstance(state, PS.ExternBlockState):
+        return "ext"
+    if isinstance(state, PS.ClassBlockState):
+        return "cls"
+    return "?"
+
+
+def state_hdr(state):
+    if isinstance(state, PS.NamespaceBlockState):
+        return {"namespace": to_json(state.namespace)}
+    if isinstance(state, PS.ExternBlockState):
+        return {"linkage": state.linkage}
+    m = state.mods
+    return {
+        "class_decl": to_json(state.class_decl),
+        "typedef": bool(state.typedef),
+        "mods": {"vars": list(m.vars.keys()), "both": list(m.both.keys()), "meths": list(m.meths.keys())},
+    }
+
+
+_CALLBACKS = [
+    "on_parse_start", "on_pragma", "on_include", "on_extern_block_start", "on_extern_block_end",
+    "on_namespace_start", "on_namespace_end", "on_concept", "on_namespace_alias", "on_forward_decl",
+    "on_template_inst", "on_variable", "on_function", "on_method_impl", "on_typedef",
+    "on_using_namespace", "on_using_alias", "on_using_declaration", "on_enum", "on_class_start",
+    "on_class_field", "on_class_method", "on_class_friend", "on_class_end", "on_deduction_guide",
+]
+_STARTS = {"on_extern_block_start", "on_namespace_start", "on_class_start"}
+
+
+class Recorder:
+    """A CxxVisitor that records every callback it receives; optionally forwards to a
+    SimpleCxxVisitor so that the fold can be compared; optionally skips blocks by name and
+    raises at a chosen delivery index."""
+
+    def __init__(self, skip=(), fault=None, inner=None):
+        self.events = []
+        self.ids = {}
+        self.states = []  # keep alive (id() reuse)
+        self.skip = set(skip)
+        self.fault = fault
+        self.inner = inner
+
+    def sid(self, state):
+        if state is None:
+            return None
+        k = id(state)
+        if k not in self.ids:
+            self.ids[k] = len(self.ids)
+            self.states.append(state)
+        return self.ids[k]
+
+    def _record(self, name, state, payload):
+        idx = len(self.events)
+        ev = {
+            "cb": name,
+            "state": self.sid(state),
+            "kind": state_kind(state),
+            "parent": self.sid(state.parent),
+            "loc": loc_json(state.location),
+            "access": getattr(state, "access", None),
+            "hdr": state_hdr(state),
+            "payload": to_json(payload) if payload is not None else None,
+        }
+        self.events.append(ev)
+        if self.fault is not None and idx == self.fault:
+            raise Fault(idx)
+        ret = None
+        if self.inner is not None:
+            args = (state,) if payload is None else (state, payload)
+            ret = getattr(self.inner, name)(*args)
+        if name in _STARTS and block_name(state) in self.skip:
+            return False
+        return ret
+
+
+def _mk_cb(name):
+    def cb(self, state, *payload):
+        return self._record(name, state, payload[0] if payload else None)
+
+    cb.__name__ = name
+    return cb
+
+
+for _n in _CALLBACKS:
+    setattr(Recorder, _n, _mk_cb(_n))
+
+
+def cause_json(e):
+    if e is None:
+        return None
+    if isinstance(e, Fault):
+        return {"k": "visitor", "idx": e.idx}
+    if isinstance(e, L.LexError):
+        tok = e.tok
+        return {"k": "lex", "msg": e.args[0], "value": tok.value, "loc": loc_json(getattr(tok, "location", None))}
+    if isinstance(e, CxxParseError):
+        tok = e.tok
+        return {"k": "parse", "msg": e.args[0], "tok": [tok.type, tok.value] if tok is not None else None}
+    if isinstance(e, EOFError):
+        return {"k": "eof"}
+    return {"k": "py", "cls": type(e).__name__, "msg": str(e)}
+
+
+def impl_parse(text, filename="<str>", opts=None, skip=(), fault=None, with_simple=False):
+    opts = opts or {}
+    options = ParserOptions(
+        verbose=bool(opts.get("verbose", False)),
+        convert_void_to_zero_params=bool(opts.get("void", True)),
+    )
+    inner = S.SimpleCxxVisitor() if with_simple else None
+    rec = Recorder(skip=skip, fault=fault, inner=inner)
+    out = {}
+    parser = None
+    try:
+        if options.verbose:
+            import contextlib, io
+
+            with contextlib.redirect_stdout(io.StringIO()):
+                parser = CxxParser(filename, text, rec, options)
+        else:
+            parser = CxxParser(filename, text, rec, options)
+    except Exception as e:  # noqa
+        out["result"] = {"k": "ctor", "cause": cause_json(e)}
+    if parser is not None:
+        try:
+            if options.verbose:
+                import contextlib, io
+
+                with contextlib.redirect_stdout(io.StringIO()):
+                    parser.parse()
+            else:
+                parser.parse()
+            out["result"] = {"k": "ok"}
+        except CxxParseError as e:
+            if options.verbose:
+                out["result"] = {"k": "raw", "cause": cause_json(e)}
+            else:
+                out["result"] = {"k": "error", "msg": e.args[0], "cause": cause_json(e.__cause__)}
+        except Exception as e:  # noqa
+            out["result"] = {"k": "raw", "cause": cause_json(e)}
+        out["anon"] = parser.anon_id
+    out["events"] = rec.events
+    if with_simple and inner is not None and hasattr(inner, "data"):
+        out["data"] = inner.data
+    return out
